@@ -88,7 +88,8 @@ def splitBlob (s : String) : String × String :=
 def decodeChecked (net : Tree.Net) (hex : String) (text : String) : Option Block × Bool :=
   let claimed : Option Block := if text == "G" then none else some (parseBlock text)
   let diff := match claimed with | some b => b.diff | none => 0
-  let own := Btc.BlockCodec.blockOfBytes net (fun _ => diff) (hexToBytes hex)
+  -- prefix decode: the heartbeat uses `consensus_decode` on a reader, trailing bytes are ignored
+  let own := Btc.BlockCodec.blockOfBytesPrefix net (fun _ => diff) (hexToBytes hex)
   (own, own == claimed)
 
 def netOf (d : DState) : Tree.Net := match d.st with | some s => s.network | none => .regtest
